@@ -7,6 +7,7 @@ import (
 	"io"
 	"math/big"
 	"math/rand"
+	"runtime"
 	"strings"
 	"time"
 
@@ -80,6 +81,7 @@ type rGen struct {
 	nrOK     int
 	firstErr string
 	hlog     []string
+	nrFailed int  // NextReader calls that returned an error so far
 	bare     bool // no handler was ever installed: the package's own defaults, not even wrapped for logging
 	lastZ    bool
 	fuzzy    bool // a compressed message was read: buffer state no longer predicted, only full reads from here on
@@ -682,6 +684,7 @@ func (g *rGen) opNextReader() bool {
 	t, rd, err := g.c.NextReader()
 	if err != nil {
 		n := errName(err)
+		g.nrFailed++
 		g.t.apiFailed = true
 		g.noteErr(n)
 		if g.firstErr == "" {
@@ -870,6 +873,7 @@ func (g *rGen) opReadMessage() bool {
 	}
 	if err != nil && t <= 0 {
 		n := errName(err)
+		g.nrFailed++ // ReadMessage's NextReader failed
 		g.t.apiFailed = true
 		if g.firstErr == "" {
 			g.firstErr = n
@@ -973,6 +977,38 @@ func (g *rGen) program() {
 			break
 		}
 		g.opNextReader()
+	}
+	// … and, now and then, all the way: the same error on every later call of NextReader, up to the
+	// documented panic of the 1000th failed call — not earlier, whatever else was called on the
+	// failed connection in between
+	if g.firstErr != "" && g.nrFailed > 0 && r.Intn(30) == 0 {
+		g.sc.tag("sticky-to-1000")
+		for g.nrFailed < 1003 {
+			panicked := false
+			var err error
+			func() {
+				defer func() {
+					if p := recover(); p != nil {
+						panicked = true
+					}
+				}()
+				_, _, err = g.c.NextReader()
+			}()
+			if panicked {
+				g.sc.emit("nr c0", g.line("panic"))
+				if g.nrFailed+1 != 1000 {
+					g.sc.violate("NextReader panicked at failed call %d; the error is to be returned on every call up to the 1000th", g.nrFailed+1)
+				}
+				break
+			}
+			g.nrFailed++
+			n := errName(err)
+			if err == nil || n != g.firstErr {
+				g.sc.violate("failed call %d of NextReader returned %q, the latched error is %q", g.nrFailed, n, g.firstErr)
+				break
+			}
+			g.sc.emit("nr c0", g.line("err "+n))
+		}
 	}
 }
 
@@ -1118,6 +1154,18 @@ func readerOracle(g *rGen) {
 	for i, f := range frames {
 		if f.op == 8 && i != len(frames)-1 {
 			sc.violate("a frame was written after a close frame")
+		}
+		// close frames written by the library itself (echo, 1002, 1009): the reserved codes 1005, 1006
+		// and 1015 never appear on the wire (RFC 6455 7.4.1); a close without status is echoed without one
+		if f.op == 8 && !g.localClosed {
+			if len(f.payload) == 1 {
+				sc.violate("the library wrote a close frame with a 1-byte body")
+			}
+			if len(f.payload) >= 2 {
+				if code := int(f.payload[0])<<8 | int(f.payload[1]); code == 1005 || code == 1006 || code == 1015 {
+					sc.violate("the library wrote a close frame with the reserved status %d", code)
+				}
+			}
 		}
 	}
 	if len(g.t.faults) == 0 {
@@ -1276,6 +1324,74 @@ func (g *rGen) reachedViolation() bool {
 // fuzz stream (C07): arbitrary / mutated byte strings as the peer's stream. The model predicts the
 // exact outcome (incl. "panic"); the oracle checks no panic, no hang, proportional allocation.
 // ---------------------------------------------------------------------------
+
+// A long run of empty messages read through JoinMessages with an empty terminator: memory (the
+// goroutine's stack included) stays bounded however many messages follow one another (C07: no
+// resource use out of proportion to the input). Oracle only.
+func runManyEmptyJoinScenario(seed int64) *scenario {
+	r := rand.New(rand.NewSource(seed))
+	sc := &scenario{kind: "rfuzz", seed: seed}
+	srv := r.Intn(2) == 0
+	n := 100000 + r.Intn(50000)
+	one := encFrame{fin: true, op: 1 + r.Intn(2)}
+	if srv {
+		one.masked, one.key = true, [4]byte{1, 2, 3, 4}
+	}
+	fb := one.encode()
+	stream := bytes.Repeat(fb, n)
+	t := newTConn(&evlog{})
+	t.quiet = true
+	t.chunks = [][]byte{stream}
+	c := websocket.VerifNewConn(t, srv, 4096, 64, nil, nil, nil)
+	jr := websocket.JoinMessages(c, "")
+	type res struct {
+		grew uint64
+		err  error
+		got  int
+		pan  string
+	}
+	ch := make(chan res, 1)
+	go func() {
+		var x res
+		defer func() {
+			if p := recover(); p != nil {
+				x.pan = fmt.Sprint(p)
+			}
+			ch <- x
+		}()
+		var m0, m1 runtime.MemStats
+		runtime.ReadMemStats(&m0)
+		buf := make([]byte, 4096)
+		for {
+			k, err := jr.Read(buf)
+			x.got += k
+			if err != nil {
+				x.err = err
+				break
+			}
+		}
+		runtime.ReadMemStats(&m1)
+		if m1.StackInuse > m0.StackInuse {
+			x.grew = m1.StackInuse - m0.StackInuse
+		}
+	}()
+	x := <-ch
+	if x.pan != "" {
+		sc.violate("JoinMessages over %d empty messages panicked: %s", n, x.pan)
+	}
+	if x.got != 0 {
+		sc.violate("JoinMessages over %d empty messages delivered %d bytes", n, x.got)
+	}
+	if x.err == nil || x.err == io.EOF {
+		sc.violate("JoinMessages over %d empty messages and then EOF ended with %v", n, x.err)
+	}
+	if x.grew > 4<<20 {
+		sc.violate("reading %d empty messages (%d bytes of frames) through JoinMessages grew the stack in use by %d bytes", n, len(stream), x.grew)
+	}
+	sc.emit(fmt.Sprintf("sched many-empty-join n=%d srv=%d", n, b2i(srv)), "ok")
+	sc.tag("many-empty-join")
+	return sc
+}
 
 func runFuzzScenario(seed int64) *scenario {
 	r := rand.New(rand.NewSource(seed))
